@@ -360,6 +360,94 @@ func (c *Client) PutObjectWithContext(ctx aws.Context, in *s3.PutObjectInput, _ 
 	return &s3.PutObjectOutput{}, nil
 }
 
+// Proxy forwards to another S3 client (the process-wide in-memory bucket of OpenKV) while applying the harness
+// client's plans and logging the requests exactly like the fake store does; the store's object map mirrors the
+// successful mutations.
+type Proxy struct {
+	cl    *Client
+	under interface {
+		DeleteObjectWithContext(aws.Context, *s3.DeleteObjectInput, ...request.Option) (*s3.DeleteObjectOutput, error)
+		GetObjectWithContext(aws.Context, *s3.GetObjectInput, ...request.Option) (*s3.GetObjectOutput, error)
+		ListObjectsV2WithContext(aws.Context, *s3.ListObjectsV2Input, ...request.Option) (*s3.ListObjectsV2Output, error)
+		PutObjectWithContext(aws.Context, *s3.PutObjectInput, ...request.Option) (*s3.PutObjectOutput, error)
+	}
+}
+
+func (p *Proxy) log(op, key, res string, body []byte) {
+	p.cl.st.mu.Lock()
+	p.cl.logReq(op, key, res, body)
+	p.cl.st.mu.Unlock()
+}
+
+func resOf(err error) string {
+	if err == nil {
+		return "ok"
+	}
+	if ae, ok := err.(awserr.Error); ok && ae.Code() == s3.ErrCodeNoSuchKey {
+		return "404"
+	}
+	return "err"
+}
+
+func (p *Proxy) DeleteObjectWithContext(ctx aws.Context, in *s3.DeleteObjectInput, o ...request.Option) (*s3.DeleteObjectOutput, error) {
+	if err := p.cl.before(ctx, "DELETE", *in.Key, true); err != nil {
+		p.log("DELETE", *in.Key, "err", nil)
+		return nil, err
+	}
+	out, err := p.under.DeleteObjectWithContext(ctx, in, o...)
+	if err == nil {
+		p.cl.st.mu.Lock()
+		if _, existed := p.cl.st.objs[*in.Key]; existed {
+			p.cl.addEff()
+		}
+		delete(p.cl.st.objs, *in.Key)
+		p.cl.st.mu.Unlock()
+	}
+	p.log("DELETE", *in.Key, resOf(err), nil)
+	return out, err
+}
+
+func (p *Proxy) GetObjectWithContext(ctx aws.Context, in *s3.GetObjectInput, o ...request.Option) (*s3.GetObjectOutput, error) {
+	if err := p.cl.before(ctx, "GET", *in.Key, false); err != nil {
+		p.log("GET", *in.Key, "err", nil)
+		return nil, err
+	}
+	out, err := p.under.GetObjectWithContext(ctx, in, o...)
+	p.log("GET", *in.Key, resOf(err), nil)
+	return out, err
+}
+
+func (p *Proxy) ListObjectsV2WithContext(ctx aws.Context, in *s3.ListObjectsV2Input, o ...request.Option) (*s3.ListObjectsV2Output, error) {
+	if err := p.cl.before(ctx, "LIST", *in.Prefix, false); err != nil {
+		p.log("LIST", *in.Prefix, "err", nil)
+		return nil, err
+	}
+	return p.under.ListObjectsV2WithContext(ctx, in, o...)
+}
+
+func (p *Proxy) PutObjectWithContext(ctx aws.Context, in *s3.PutObjectInput, o ...request.Option) (*s3.PutObjectOutput, error) {
+	b, rerr := io.ReadAll(in.Body)
+	if rerr != nil {
+		return nil, rerr
+	}
+	if err := p.cl.before(ctx, "PUT", *in.Key, true); err != nil {
+		p.log("PUT", *in.Key, "err", nil)
+		return nil, err
+	}
+	in.Body = bytes.NewReader(b)
+	out, err := p.under.PutObjectWithContext(ctx, in, o...)
+	if err == nil {
+		p.cl.st.mu.Lock()
+		if old, existed := p.cl.st.objs[*in.Key]; !existed || !bytes.Equal(old, b) {
+			p.cl.addEff()
+		}
+		p.cl.st.objs[*in.Key] = b
+		p.cl.st.mu.Unlock()
+	}
+	p.log("PUT", *in.Key, resOf(err), b)
+	return out, err
+}
+
 // Snapshot returns a deep copy of the bucket contents.
 func (s *Store) Snapshot() map[string][]byte {
 	s.mu.Lock()
